@@ -1,0 +1,35 @@
+//go:build verif
+
+package topics
+
+// Machine-checked contracts for package topics (verification build only); read by /verif/govc.
+
+// ---------------------------------------------------------------- the provider interface, as the connection handlers see it
+// Ghost: nsub / nunsub count the Subscribe / Unsubscribe calls this goroutine has made on a provider (C07: every
+// filter of a request takes effect before the acknowledgement is sent).
+
+//@ iface Provider.Subscribers
+//@   trusted
+//@   results err
+//@   flag args self, topic, qos, subs, qoss
+//@   ensures err == nil ==> len(*subs) == len(*qoss) && forall(0, len(*subs), func(i int) bool { return (*subs)[i] != nil && typeis((*subs)[i], *service.OnPublishFunc) && ifaceval((*subs)[i], *service.OnPublishFunc) != nil && (*qoss)[i] <= qos && (*qoss)[i] <= 2 })
+//@   ensures[arrays] (fresh(arr(*qoss)) || arr(*qoss) == arr(old(*qoss))) && (fresh(arr(*subs)) || arr(*subs) == arr(old(*subs)))
+//@   modifies *subs, *qoss, capelems(old(*subs)), capelems(old(*qoss))
+
+//@ iface Provider.Retain
+//@   trusted
+//@   results err
+//@   flag args self, msg
+//@   modifies allfields(rnode), allfields(snode), allfields(MemTopics)
+
+//@ func (*Manager).Subscribers
+//@   results err
+//@   requires m.p != nil
+//@   ensures err == nil ==> len(*subs) == len(*qoss) && forall(0, len(*subs), func(i int) bool { return (*subs)[i] != nil && typeis((*subs)[i], *service.OnPublishFunc) && ifaceval((*subs)[i], *service.OnPublishFunc) != nil && (*qoss)[i] <= qos && (*qoss)[i] <= 2 })
+//@   ensures[arrays] (fresh(arr(*qoss)) || arr(*qoss) == arr(old(*qoss))) && (fresh(arr(*subs)) || arr(*subs) == arr(old(*subs)))
+//@   modifies *subs, *qoss, capelems(old(*subs)), capelems(old(*qoss))
+
+//@ func (*Manager).Retain
+//@   results err
+//@   requires m.p != nil
+//@   modifies allfields(rnode), allfields(snode), allfields(MemTopics)
